@@ -13,14 +13,14 @@ package namer
 //@   ensures forall k string :: has(result.lookup, k) == (k == "c")
 
 //@ func Namer.Register
-//@   props C01
+//@   props C01 C13
 //@   requires@C13 m != nil && m.lookup != nil
 //@   assigns m.First, map(m.lookup)
 //@   ensures result == !old(has(m.lookup, name))
 //@   ensures forall k string :: has(m.lookup, k) == (old(has(m.lookup, k)) || k == name)
 
 //@ func Namer.Name
-//@   props C01
+//@   props C01 C13
 //@   requires@C13 m != nil && m.lookup != nil
 //@   assigns m.First, map(m.lookup)
 //@   ensures !old(has(m.lookup, result))
@@ -29,7 +29,7 @@ package namer
 //@   loop 1 invariant i >= 1 && (forall k string :: has(m.lookup, k) == old(has(m.lookup, k)))
 
 //@ func Namer.Index
-//@   props C01
+//@   props C01 C13
 //@   requires@C13 m != nil && m.lookup != nil
 //@   assigns m.First, map(m.lookup)
 //@   ensures !old(has(m.lookup, result))
@@ -38,7 +38,7 @@ package namer
 //@   loop 2 invariant forall k string :: has(m.lookup, k) == old(has(m.lookup, k))
 
 //@ func Namer.Map
-//@   props C01
+//@   props C01 C13
 //@   requires@C13 m != nil && m.lookup != nil
 //@   assigns map(m.lookup)
 //@   ensures !old(has(m.lookup, result0)) && !old(has(m.lookup, result1)) && result0 != result1
